@@ -44,7 +44,8 @@ MIRRORS = L.mirrors(PID)
 def run(ctx):
     stats = {}
     corpus = L.load_corpus(PID)
-    L.evaluate(ctx, PID, corpus, stats)
+    L.evaluate(ctx, PID, [c for c in corpus if not c.get("session")], stats)
+    L.evaluate_sessions(ctx, PID, [c for c in corpus if c.get("session")], stats)
     target = ctx.n(4500, 60000)
     done = 0
     import time
@@ -53,6 +54,8 @@ def run(ctx):
         batch = [L.gen_case(ctx.rng) for _ in range(96)]
         L.evaluate(ctx, PID, batch, stats)
         done += sum(len(c["history"]) for c in batch)
+        # one Eups object serving several top-level calls (API use)
+        L.evaluate_sessions(ctx, PID, [L.gen_session_case(ctx.rng) for _ in range(16)], stats)
     if ctx.tier == "thorough":
         # exhaustive: all 4096 graphs over 3 names x 2 versions of lib_setup.small_graphs
         batch = []
@@ -71,7 +74,8 @@ def run(ctx):
     ok = stats.get("ok", 0)
     if done >= 300 and (ok < done * 0.3 or stats.get("switched", 0) < ok * 0.05 or stats.get("c01_prior_ok", 0) < ok * 0.5):
         raise common.InfraError("degenerate distribution: %r of %d requests" % (stats, done))
-    floors = {"class_shared_table_switch": 5, "class_prefix_bystander": 5, "class_mid_reference": 10}
+    floors = {"class_shared_table_switch": 5, "class_prefix_bystander": 5, "class_mid_reference": 10, "class_tag_named": 5,
+              "class_session_switch": 5}
     low = {k: stats.get(k, 0) for k, f in floors.items() if stats.get(k, 0) < f}
     if done >= 600 and low:
         raise common.InfraError("input classes of round 3 under their floors %r: %r of %d requests" % (floors, low, done))
